@@ -28,10 +28,14 @@ CHECK = {
             "snaps: (data folder absent / empty / holding 1-6 REAL hashicorp file snapshots with chosen (term, index) written in any creation order - terms 9/10/11 and indices 9/10/99/100/1000 so that "
             "numeric and name order differ - and leftovers: an interrupted `.tmp` snapshot, a directory with unreadable meta.json, a plain file) x (offline read | CleanupRaft | SnapshotSave): which snapshot is read, "
             "metadata of the new snapshot, what old.0 holds; "
+            "round 8c: a snapshot may be DAMAGED (`T.I.Cd`: one byte of state.bin flipped, meta.json intact - the newest one half of the time) and two snapshots may share one (term, index) "
+            "(created last or in between); ops also `i<C>` (the real raft state manager's ImportState onto the folder) and `b` (a REAL single-voter raft.NewConsensus peer STARTED on the folder; "
+            "its snapshots name that peer as the only voter): refusal vs fall-back, what old.0 holds, what the started peer serves; "
             "one splitmix64 stream per case index; non-trivial = exercises a clause; distinct by case line",
     "trusted_base": ["byte-level codecs of the atoms (cid, peer id, multiaddress, strings, time) are abstracted to table indices: "
                      "the harness maps real values back to indices and reports anything it cannot map",
                      "go-datastore MapDatastore/leveldb/badger, hashicorp/raft FileSnapshotStore, libp2p memory peerstore behave as their APIs say",
+                     "hashicorp/raft v1.1.1 FileSnapshotStore.Open's checksum test and restoreSnapshot's fall-back to the next snapshot that opens are observed (snaps suite, damaged snapshots), not regenerated; damage = one flipped byte of state.bin (a damaged meta.json is the `m` leftover); "
                      "hashicorp/raft v1.1.1 start-up (restore of the newest snapshot, replay of the log entries behind its index once the single voter leads) is observed through the started peer, not regenerated; "
                      "'killed' = the data folder copied while the peer runs idle after its last commit returned",
                      "crash = death of the process between two system calls (strace inject signal=KILL on entering the K-th call); power loss / fsync ordering is outside the model; "
@@ -48,9 +52,14 @@ META = {
             "history of pins/unpins/graceful restarts (restart_keeps_state_full_holds, by the index invariant of the log it writes), and its shutdown snapshot reads offline as that pinset (graceful_offline_id); "
             "a folder with SEVERAL snapshots and leftovers: the offline read is the snapshot no other is newer than by (term, index), independent of the listing order (offline_reads_newest, newest_perm), "
             "SnapshotSave onto any such folder reads back as the saved pinset and moves the whole folder to old.0 (save_offline_id_multi, save_backs_up_all, save_fresh). "
+            "Damaged snapshots (state.bin fails its checksum) and equal (term, index): the offline read is the latest snapshot or - only when that one is damaged - a refusal, never an older pinset "
+            "(offline_never_stale, offline_broken_iff, with the refuted fall-back alternative offline_is_not_fallback: a STARTED peer does fall back, observed on a real peer); SnapshotSave on a damaged newest is "
+            "refused and touches nothing, `state import` succeeds on every folder and backs the whole folder up (save_refused_on_damaged_newest, import_onto_damaged_id); of equal keys the one created last is read "
+            "(tie_latest_created_wins); retention never removes what is read (reap_keeps_newest). raftStateManager.ImportState is tied semantically: its operation list read from the syntax tree, INTERPRETED "
+            "on the folder model, is the model's import for every folder (gen_sem_import_is_model). "
             "The model is tied to today's code by running the real dsstate, raft snapshot/cleanup functions, cmdutils state managers and "
             "pstoremgr, and a real single-voter Raft peer (writes the folder, is killed or shut down, is started again after the import) on seeded cases and checking model agreement and the Lean property checker on the real outputs.",
     "note": "export/import is proved for pinsets without origins; a pin with origins cannot be decoded from JSON (known finding K01c). "
             "Atoms are table indices (byte codecs are C08's subject).",
-    "technique": "regenerated source text of the anchored functions checked against the transcribed snapshot (rfl) + Lean 4 theorems over functional/relational models + differential correspondence with the real code",
+    "technique": "regenerated source text of the anchored functions checked against the transcribed snapshot (rfl) + go/ast facts and an interpreted operation list (SnapshotSave, CleanupRaft, latestSnapshot, ImportState) + Lean 4 theorems over functional/relational models + differential correspondence with the real code",
 }
